@@ -210,7 +210,8 @@ class solve_torchfcn(torch.autograd.Function):
                 grad_E = grad_E.real
 
         # calculate the gradient to the biases matrices
-        grad_mparams = []
+        # (without E, M is ignored: its tensors get no gradient)
+        grad_mparams = [None for _ in mparams]
         if ctx.M is not None and E is not None and len(mparams) > 0:
             with torch.enable_grad():
                 mparams = [p.clone().requires_grad_() for p in mparams]
